@@ -59,6 +59,9 @@ CHECKS = {
  "C20": ("Coq proof (flatten lists every ID of the tree exactly once; the report is a permutation of it sorted by start time with ties by ID; refuted pre-repair ordering) + T2 through the real scipipe binary on generated trees + executing generated Bash scripts of real runs",
          "Theorems over all record trees (any depth, fan-in, sharing); the extracted model's order is compared with the (process, ID) sequence parsed from audit2html / audit2tex / audit2bash output of the real CLI on generated trees with ties and zero times, and generated scripts of real workflows are executed and must re-create the file byte-identically.",
          "7 C20", ""),
+ "C12": ("Coq proof of lockset soundness over acquire/release/access traces + computed lock-discipline obligations on the skeletons regenerated from the source (tags map, audit record pointer, remote-port maps, slot deposit loop) + race-detector runs as the search for failing inputs",
+         "Partial by nature: a data race is a property of the Go memory model. Proved: two accesses made under a common mutex are ordered by happens-before in every valid trace; computed on every run: all modelled accesses to the shared audit record and port maps hold the owning mutex, and task / process / tagging code touches the tags only through the guarded accessors. Fan-out / fan-in / multi-core / tagging workflows built with -race supply failing inputs (exit 66).",
+         "7 C12", "Not covered by any theorem: completeness of the access enumeration (aliasing), channel hand-offs, logging, the runtime's own synchronisation."),
 }
 
 def main():
